@@ -4,5 +4,6 @@ cd "$(dirname "$0")/.." || exit 2
 export VERIF_ROOT=$(pwd)
 mkdir -p build evidence replays
 echo "[setup] building libgstlearn (hooks on, -O1, assertions on)"; bin/buildlib.sh lib || exit 2
+echo "[setup] building libgstlearn with AddressSanitizer (used by C09, C18)"; bin/buildlib.sh asan || echo "[setup] ASan build failed (the checks that need it will report ERROR)"
 echo "[setup] building the Coq development (full .vo build)"; bin/coqbuild.sh > build/coq_setup.log 2>&1 || { echo "[setup] coq build reported errors (checks will report them)"; tail -20 build/coq_setup.log; }
 echo "[setup] done"
